@@ -29,6 +29,7 @@ RULE = ('A program is a sequence of operators from {pos, neg, add, radd, sub, rs
 RULE += ' Added classes: NumPy-typed scalar operands (np.float32 / np.int16 / np.float64 / np.int64); expression trees in which refused accesses (row out of range, step != 1, bad channel) are interleaved with reads of the same readers.'
 RULE += ' Round 5: boolean masks (full width and width 2) and runs of negative indices among the channel selections.'
 RULE += ' Round 6: integer channel selections (the channel axis is dropped) and empty ones; every one-operator program, and every two-operator program starting with a selection, on the multi-file / npy / compressed backends.'
+RULE += ' Round 7: np.float64(g) on the left of every reflected operator (only where the expression is integer or double at that point: NumPy itself strips the type before the reader sees it); a 3000-row recording read with index arrays of > 1000 rows that agree in their first and last entries, through a reader and its relatives. Floating results are judged to a few units of the coarsest precision met along the expression.'
 EXHAUSTIVE = {'quick': True, 'thorough': True}
 EXHAUSTIVE_SCOPE = {'quick': 'all programs of depth <= 2 on int16 and float32 (array backend)',
                     'thorough': 'depth <= 2 on every dtype, depth 3 on int16 (array backend)'}
